@@ -519,9 +519,22 @@ class C02Monitor(Monitor):
         fit = ind.fitness
         g = np.asarray(ind.genome, dtype=float)
         x.extra_count("C02 individuals re-evaluated")
-        if fit is None or (isinstance(fit, float) and fit != fit):
+        if fit is not None and fit != fit:
+            # NaN is a legitimate objective value where the objective is undefined; it must then be the value of THIS genome
+            tv = w.pure[level](g)
+            if tv != tv:
+                x.flag("NaN-valued individual checked")
+                return
+            x.violate(f"C02/unevaluated:{typ}", f"{where}: fitness NaN although the objective is defined there ({tv!r})")
+            return
+        if fit is None:
             x.violate(f"C02/unevaluated:{typ}", f"{where}: individual without fitness")
             return
+        if np.isinf(fit) and str(x.desc.get("obj", "")).startswith("nan"):
+            tv = w.pure[level](g)
+            if tv != tv:
+                x.violate(f"C02/nan-turned-inf:{typ}", f"{where}: stored fitness {fit} for a genome at which the objective is undefined (NaN)")
+                return
         if np.isinf(fit):
             ok_sign = (fit < 0) if w.maximize else (fit > 0)
             if ok_sign and w.refused(level):
